@@ -168,6 +168,9 @@ impl Driver {
                 post.state.iter().map(|m| format!("{}:{}:{:?}", m.id(), m.incarnation(), m.state())).collect::<Vec<_>>(), post.updates_backlog, post.custom_backlog);
         }
         let mut vs = Vec::new();
+        if rec.conflict_contract_breaches > 0 {
+            vs.push(Violation { property: "C09", tag: "C09/win-addr-conflict-asked-outside-its-contract".into(), detail: format!("{}: Identity::win_addr_conflict was called {} time(s) for identities that do not share an address or for an identity against itself (the bundled SocketAddr identities panic there)", rec.input.kind(), rec.conflict_contract_breaches), at: step_idx });
+        }
         if let Some(m) = &rec.twin_mismatch {
             vs.push(Violation { property: "C08", tag: "C08/accumulating-runtime-differs".into(), detail: format!("{}: {m}", rec.input.kind()), at: step_idx });
         }
